@@ -72,7 +72,7 @@ def jobs_c09(tier, seed):
         pairs = [POOL[0]]
         extra = c09_shapes(1, 3, seed, 0)
     else:
-        shapes = c09_shapes(2, 3, seed, 1500)
+        shapes = c09_shapes(2, 3, seed, 500)
         pairs = [POOL[0], POOL[1], POOL[6]]
         extra = []
         import random
@@ -81,7 +81,7 @@ def jobs_c09(tier, seed):
         for i, sh in enumerate(shapes):
             lab = ' '.join((a['kind'][0] + str(a['sep_len']) + (f"e{a['eq_l']}{a['eq_r']}v{a['val_len']}" if a['kind'] != 'bare' else '')) for a in sh['attrs'])
             jobs.append(dict(harness='c09_grammar', params=dict(sh, ds=ds, de=de), label=f'tag {ds!r} pad{sh["pad_l"]} [{lab}]'))
-    return jobs + c09_opaque_jobs(tier)
+    return c09_opaque_jobs(tier) + jobs
 
 
 def jobs_c10(tier, seed):
